@@ -64,7 +64,7 @@ def deferredOf (j : Json) : Except String (Option (String × Nat)) := do
   | .error _ => pure none
   | .ok d => pure (some (← getStr d "event", ← getNat d "value"))
 
-def runActions (H : Heap) (abs : List (Option String)) (acts : List ActionIn) (defs : List (Option (String × Nat))) :
+def runActions (H H2 : Heap) (abs : List (Option String)) (acts : List ActionIn) (defs : List (Option (String × Nat))) :
     List Outcome :=
   if abs.any Option.isSome then
     -- some object of the heap makes an unguarded probe raise ("aborts": msg): the model with the abort outcome
@@ -75,7 +75,7 @@ def runActions (H : Heap) (abs : List (Option String)) (acts : List ActionIn) (d
     | some m => Outcome.failed m
     | none =>
       match d with
-      | some (ev, v) => deferredSnapshot H a ev v
+      | some (ev, v) => deferredSnapshot2 H H2 a ev v
       | none => collect H a) acts defs
 
 def refJson (r : VarId) : Json :=
@@ -106,13 +106,17 @@ def handle (j : Json) : Except String Json := do
   match op with
   | "collect" =>
     let H : Heap := ⟨← (← getArr j "heap").toList.mapM parseObj⟩
+    -- "heap2": the heap at the event that completes a deferred snapshot, when the host changed recorded objects in between
+    let H2 : Heap ← match j.getObjVal? "heap2" with
+      | .error _ => pure H
+      | .ok h2 => do pure ⟨← (← h2.getArr?).toList.mapM parseObj⟩
     let abs : List (Option String) := (← getArr j "heap").toList.map
       (fun o => (o.getObjVal? "aborts").toOption.bind (fun m => m.getStr?.toOption))
     match j.getObjVal? "clock" with
     | .error _ =>
       let acts ← (← getArr j "actions").toList.mapM parseAction
       let defs ← (← getArr j "actions").toList.mapM deferredOf
-      let outs := runActions H abs acts defs
+      let outs := runActions H H2 abs acts defs
       pure (Json.mkObj [("actions", Json.arr (outs.map outcomeJson).toArray)])
     | .ok ck =>
       let reads ← (← getArr ck "reads").toList.mapM (fun x => x.getInt?)
@@ -120,7 +124,7 @@ def handle (j : Json) : Except String Json := do
       let tacts ← (← getArr j "actions").toList.mapM parseTimedAction
       let r := CollectorTime.timedActions (← getInt ck "ts") script 0 tacts
       let defs ← (← getArr j "actions").toList.mapM deferredOf
-      let outs := runActions H abs r.1 defs
+      let outs := runActions H H2 abs r.1 defs
       pure (Json.mkObj [("actions", Json.arr (outs.map outcomeJson).toArray), ("reads", toJson r.2),
                         ("collected", Json.arr (r.1.map (fun a => Json.arr (a.frames.map (fun f => Json.bool f.collect)).toArray)).toArray)])
   | "consts" =>
